@@ -166,6 +166,40 @@ PROPS = {
 }
 
 
+def export_zones(ctx):
+    """Export every zone of /usr/share/zoneinfo as an explicit transition table (self-verified against Python zoneinfo)."""
+    import os, subprocess, sys
+    dest = os.path.join(ctx["build"], "zones.tbl")
+    if os.path.exists(dest) and os.path.getsize(dest) > 100000:
+        return None
+    r = subprocess.run([sys.executable, os.path.join(ctx["verif"], "oracle_py", "export_zones.py"), dest], capture_output=True, text=True)
+    if r.returncode != 0:
+        return (r.stdout + r.stderr)[-800:]
+    return None
+
+
+PROPS["C13"] = {
+    "builds": ["chk", "rel"],
+    "pre": [export_zones],
+    "rule": ("zones: 7 directed tables (1 h DST pairs, 24 h date-line jump, 30 min, 5 h and 12.5 h gaps, LMT seconds offset, gap at local midnight, fixed), seeded synthetic "
+             "tables (irregular spacing, back-to-back transitions, changes 1 s..25 h, both directions) and real tables exported from the system tz database (quick: ~84 zones, "
+             "thorough: all ~598), served to the library through the harness's TableProvider; instants at each chosen transition +- {0, 1 ns, 1 s, half/whole/over the change, "
+             "3 h +- 1 s, 1 day} plus random and range-limit instants; per instant: (A) wall-clock fields, plain date/time/datetime, offset string and offset nanoseconds of the "
+             "ZonedDateTime and Instant::to_ixdtf_string(zone) vs brute-force offset lookup; (B) the wall time on either side of the transition x 4 disambiguations through "
+             "PlainDateTime/PlainDate::to_zoned_date_time vs the brute-force candidate model; (C) bracketed strings and partial records carrying {no offset, Z, own offset, "
+             "minute-rounded offset, other side's offset, unrelated offset} x disambiguation x offset option through ZonedDateTime::from_str/from_partial and "
+             "RelativeTo::try_from_str vs the InterpretISODateTimeOffset model; fixed-offset zones round trip. non-trivial = instant within a day of a transition or wall time "
+             "in a gap/overlap; distinct by (zone, instant) fingerprint"),
+    "assumptions": ["zones.rs reference functions (linear scans over the explicit table) are the oracle; the TableProvider (binary search over the same table) is part of the harness and is itself compared with the reference in every case through the library's results",
+                    "a wall time skipped by more than one transition at once is undecided (counted)"],
+    "manifest": {
+        "technique": "runtime monitoring: brute-force transition-table oracle over observed wall-clock<->instant conversions with a harness-supplied provider, two builds",
+        "text": "Every observed conversion (instant to wall-clock fields and offset; wall clock to instant under each disambiguation; strings and partial records with offsets under each offset option) is compared with a brute-force model over explicit transition tables, for directed, synthetic and real zones. The library receives the zones through the harness's own TimeZoneProvider, so the subject is the provider-independent conversion logic; the shipped providers are C15's subject. Holds on the executions generated.",
+        "note": "Trusted: zones.rs reference functions, the tz tables exported through Python zoneinfo (self-verified at export), refmodel::civil.",
+    },
+}
+
+
 NOT_CLAIMED = {}
 
 
